@@ -70,6 +70,7 @@ def argparse_ast(
         "type": function_type or get_function_type(function_def),
         "doc": "",
         "params": OrderedDict(),
+        "returns": None,
     }
     ir: IntermediateRepr = parse_docstring(
         doc_string,
